@@ -68,7 +68,7 @@ Proof.
       unfold sim. cbn [r_reg r_pubs r_cancel r_cs with_cs]. repeat split; auto.
       apply ctlv_upd; [assumption|]. unfold ctlv, program. cbn. rewrite Hr. congruence.
     + destruct (is_disc o && negb (c_dead (r_cs s1 c)) && negb (mem_conn c (r_cancel s1))); [|assumption].
-      unfold sim. cbn [r_reg r_pubs r_cancel r_cs]. repeat split; auto. congruence.
+      unfold sim. cbn [r_reg r_pubs r_cancel r_cs]. repeat split; auto; congruence.
   - (* run *)
     unfold run_instr. rewrite <- E1, <- Hk. destruct (c_pc (r_cs s1 c)) as [|i rest].
     { destruct (mem_conn c (r_cancel s1)); [|assumption].
